@@ -100,6 +100,28 @@ class RegBench:
                 if o2.startswith("OK") != il.startswith("OK"):
                     chk.violation(f"the same registration with its attestation object encoded differently ({style}) is {'accepted' if o2.startswith('OK') else 'refused'} instead of {'accepted' if il.startswith('OK') else 'refused'} ({label})",
                                   f"attestation-object-encoding {style} {label.split('+')[0].split('/')[0]}", dict(rp, encoding=style, attestation_object_hex=styled.hex()[:2000], outcome=o2[:300]))
+            # ... and with a statement member that its format does not read (another format's member), holding a CBOR value of any kind - tagged items cbor2 has no
+            # decoder for, unassigned simple values, nested containers of them: same verdict, and never a non-library exception
+            UNREAD = {"packed": ("ver", "response", "certInfo"), "tpm": ("response",), "fido-u2f": ("alg", "ver"), "apple": ("sig", "alg", "ver"), "android-key": ("ver", "response"),
+                      "android-safetynet": ("alg", "sig", "pubArea")}
+            try:
+                fmt_ = ao_val.get("fmt") if isinstance(ao_val, dict) else None
+            except Exception:
+                fmt_ = None
+            if fmt_ in UNREAD and isinstance(ao_val.get("attStmt"), dict) and _cbor2.dumps(ao_val) == reg.att_obj:
+                oddities = [_cbor2.CBORTag(24, b"\x01"), _cbor2.CBORTag(12345, "x"), _cbor2.CBORSimpleValue(20), [_cbor2.CBORTag(99, 1)], {"k": _cbor2.CBORSimpleValue(99)}, _cbor2.CBORTag(55799, [b"\x00"]), _cbor2.undefined, 1.5, None]
+                member = next((m for m in UNREAD[fmt_] if m not in ao_val["attStmt"]), None)
+                if member is not None:
+                    ao2 = dict(ao_val, attStmt=dict(ao_val["attStmt"], **{member: oddities[self._style_n % len(oddities)]}))
+                    reg3 = _regsim.Registration(reg.cred, reg.cred_id, reg.cdj, _cbor2.dumps(ao2), id_text=reg.id_text, typ=reg.typ)
+                    for a_ in ("attachment", "client_ext", "extra_response_members", "transports"):
+                        if hasattr(reg, a_):
+                            setattr(reg3, a_, getattr(reg, a_))
+                    o3 = impl.verify_reg(pol, reg3.as_dict())
+                    chk.evals += 1
+                    if o3.startswith("OK") != il.startswith("OK") or (o3.startswith("ERR") and o3.split()[1][:4] != il.split()[1][:4]):
+                        chk.violation(f"the same registration with the unread statement member {member!r} = {oddities[self._style_n % len(oddities)]!r} gives {o3[:50]} instead of {il[:50]} ({label})",
+                                      f"unread-statement-member {fmt_} {member} {label.split('+')[0].split('/')[0]}", dict(rp, unread_member=member, attestation_object_hex=reg3.att_obj.hex()[:2000], outcome=o3[:300]))
         if again != il:
             chk.violation(f"the same call repeated gives another outcome ({label}): {il[:50]} then {again[:50]}", f"repeat-call reg {label.split('+')[0].split('/')[0]}", dict(rp, second_outcome=again[:400]))
         if self.R:
